@@ -23,7 +23,8 @@ RULE = ("K-rt: all 18 combinations (defer, namespace environment at def time in 
         "deflated zip}, from a DictLoader and from files through a FileSystemLoader with the template names in "
         "include / import / extends tags spelled x, ./x, /x, .//x; two-environment histories (different filter / test / "
         "undefined type; one ModuleLoader object shared or one per environment; interleaved loads and renders; Template "
-        "objects of one environment used by the other through extends / include / import); distinct = (sources, data, mode); non-trivial = at least two templates take part and the "
+        "objects of one environment used by the other through extends / include / import); sets with identical "
+        "sources under different names in an environment with per-name autoescape and an overridden join_path; distinct = (sources, data, mode); non-trivial = at least two templates take part and the "
         "source render produces output.")
 
 
@@ -180,6 +181,7 @@ def run(ctx):
     fs_stream(ctx, jinja2, ModuleLoader)
     multi_env_stream(ctx, jinja2, ModuleLoader)
     broken_probe(ctx, jinja2, ModuleLoader)
+    same_source_stream(ctx, jinja2, ModuleLoader)
 
 
 SPELLINGS = ["%s", "./%s", "/%s", ".//%s", "%s", "%s"]
@@ -238,6 +240,85 @@ def fs_stream(ctx, jinja2, ModuleLoader):
                            f"precompiled ({mode or 'folder'}) renders {got[:120]} but loading the same files through "
                            f"FileSystemLoader renders {ref[:120]}",
                            "C31:unnormalised-template-name" if respelled and "NotFound" in got else None)
+            else:
+                ctx.validated()
+    finally:
+        shutil.rmtree(root, ignore_errors=True)
+
+
+def rel_world(jinja2, loader):
+    import posixpath
+
+    class RelEnv(jinja2.Environment):
+        def join_path(self, template, parent):
+            if template.startswith("./"):
+                return posixpath.normpath(posixpath.join(posixpath.dirname(parent), template))
+            return template
+    return RelEnv(loader=loader, autoescape=lambda name: bool(name) and name.endswith(".html"))
+
+
+def same_source_case(jinja2, ModuleLoader, srcs, mode, target):
+    def all_renders(env):
+        res = {}
+        for n in sorted(srcs):
+            try:
+                res[n] = env.get_template(n).render(x="<b>&")
+            except Exception as e:  # noqa
+                res[n] = "X:" + type(e).__name__
+        return res
+    try:
+        ref = all_renders(rel_world(jinja2, jinja2.DictLoader(srcs)))
+        try:
+            rel_world(jinja2, jinja2.DictLoader(srcs)).compile_templates(target, zip=mode, log_function=lambda x: None,
+                                                                         ignore_errors=False)
+            got = all_renders(rel_world(jinja2, ModuleLoader(target)))
+        except Exception as e:  # noqa
+            got = {"*": "X:compile_templates/ModuleLoader:" + type(e).__name__ + ":" + str(e)[:80]}
+    finally:
+        if os.path.isdir(target):
+            shutil.rmtree(target, ignore_errors=True)
+        elif os.path.exists(target):
+            os.unlink(target)
+    return ref, got
+
+
+def same_source_stream(ctx, jinja2, ModuleLoader):
+    """sets in which several templates have IDENTICAL source text but different names, rendered in an environment
+    where the name matters: autoescape decided per name (extension), relative includes resolved by an overridden
+    join_path, and the template's own name printed ({{ self }})"""
+    shapes = ["<{{ x }}>", "{% include './greeting.txt' %}<{{ x }}>", "{{ self }}:{{ x }}", "{% import './lib.html' as l %}{{ l.m(x) }}",
+              "{% extends './base.html' %}{% block b %}{{ x }}{{ super() }}{% endblock %}"]
+    dirs = ["de", "en", "fr"]
+    rng = ctx.rng
+    root = os.path.join(lib.BUILD, f"c31_same_{os.getpid()}")
+    os.makedirs(root, exist_ok=True)
+    try:
+        for idx in range(ctx.size(60, 600)):
+            srcs = {}
+            for d in dirs:
+                srcs[f"{d}/greeting.txt"] = f"{d}-hello {{{{ x }}}}"
+                srcs[f"{d}/lib.html"] = "{% macro m(v) %}" + d + "[{{ v }}]{% endmacro %}"
+                srcs[f"{d}/base.html"] = d + "({% block b %}base{{ x }}{% endblock %})"
+            for _ in range(rng.randint(1, 3)):
+                shape = rng.choice(shapes)
+                for d in rng.sample(dirs, rng.randint(2, 3)):
+                    srcs[f"{d}/page{len(srcs)}.{rng.choice(['html', 'txt'])}"] = shape
+                if rng.random() < 0.5:
+                    srcs[f"card{len(srcs)}.html"] = shape.replace("./", "de/")
+                    srcs[f"card{len(srcs)}.txt"] = shape.replace("./", "de/")
+            mode = (None, "stored", "deflated")[idx % 3]
+            target = os.path.join(root, f"s{idx}" + (".zip" if mode else ""))
+
+            ref, got = same_source_case(jinja2, ModuleLoader, srcs, mode, target)
+            dup = len(set(srcs.values())) < len(srcs)
+            ctx.case(sample={"sources": srcs, "zip": mode, "renders": ref} if dup and idx < 2 else None,
+                     key=("same", idx) if dup else None)
+            ctx.count("same-source-set")
+            if got != ref:
+                bad = sorted(n for n in ref if got.get(n) != ref[n])[:3]
+                ctx.reject({"sources": srcs, "zip": mode, "differs": {n: [got.get(n), ref[n]] for n in bad}},
+                           f"name-dependent environment: precompiled and source renders differ for {bad}: "
+                           f"{[(got.get(n), ref[n]) for n in bad][:2]}", None)
             else:
                 ctx.validated()
     finally:
@@ -397,6 +478,16 @@ def replay(ctx, data):
     jinja2 = lib.use_repo_jinja()
     from jinja2.loaders import ModuleLoader
     case = data.get("case")
+    if data.get("kind") == "failing-input" and case is not None and "differs" in case:
+        mode = case["zip"]
+        target = os.path.join(lib.BUILD, f"c31_replay_{os.getpid()}" + (".zip" if mode else ""))
+        ref, got = same_source_case(jinja2, ModuleLoader, case["sources"], mode, target)
+        bad = sorted(n for n in ref if got.get(n) != ref[n])
+        for n in bad[:5]:
+            print(f"  {n}: source {ref[n]!r}  precompiled {got.get(n)!r}")
+        if bad:
+            ctx.reject(case, f"name-dependent environment: precompiled and source renders differ for {bad[:3]}")
+        return
     if data.get("kind") == "failing-input" and case is not None and "ops" in case:
         ops = [tuple(o[:3]) + (({k: tuple(v) for k, v in o[3].items()},) if len(o) > 3 else ()) for o in case["ops"]]
         mode = case["zip"]
